@@ -29,7 +29,8 @@ ALLOWED_AXIOMS = []
 PINNED = ["C13_dq", "C13_unquoted_full", "C13_refuted", "C13_unquoted_partial", "C13_unquoted_exact", "Known_C13",
           "C13_subst_refuted", "C13_glob_refuted", "C13_output_refuted", "C13_post_passes", "C13_post_passes_exact",
           "C13_known_is_not_inert", "C13_unquoted_exact_text", "C13_tokenize_unquoted", "C13_post_passes_from",
-          "C13_dq_with_input", "C13_witness_value_and_genuine_lt", "C13_witness_pipe", "C13_witness_gt", "C13_witness_amp", "C13_witness_lt", "C13_nonvacuous"]
+          "C13_dq_with_input", "C13_witness_value_and_genuine_lt", "C13_glob_blank", "C13_glob_tag_whole_path",
+          "C13_expand_glob_one", "C13_witness_glob_dir", "C13_witness_pipe", "C13_witness_gt", "C13_witness_amp", "C13_witness_lt", "C13_nonvacuous"]
 TRUSTED = [
     "Coq 8.16.1 kernel (coqc; coqchk in thorough); vm_compute only in concrete witnesses / non-vacuity examples",
     "hand transcriptions composed by Model/FullPlan.v: parse_line (Model/Tokenizer.v), do_expansion and its passes "
